@@ -130,6 +130,9 @@ func (w *world) Setup(e *sim.Env) {
 		grace = time.Duration(g) * time.Millisecond
 	}
 	w.m = newModel(grace)
+	if l := time.Duration(w.c.Knob("net_latency_ns", 0)); l > 0 {
+		w.m.LagWrite, w.m.LagCas = l+l/4, 3*l+l/2
+	}
 	w.m.LaxVersions = w.prop() == "C06"
 	if w.c.Knob("slash_keys", 0) == 1 && w.mode == "seq" {
 		w.mN = newModel(grace)
